@@ -54,6 +54,14 @@ CHECKS = [
       technique="deterministic simulation: issuer, holders, adversary and verifier with skewed clocks; SD-JWT presentations (concealed claims, disclosures, KB-JWT) cross a network with bit flips and Byzantine disclosure / KB-JWT manipulation; reference validator over recorded signing events, own SHA-256 digests of disclosures and of the presented string, and the clock value",
       text="Seeded search over concealed-claim subsets (leaf, array element, nested object with concealed child, decoys, _sd_alg), disclosed subsets, KB-JWTs (typ, sd_hash, nonce, aud, iat from the holder clock), holder key rotation with stale resolution, adversary moves (drop / duplicate / reorder / forge disclosure, KB-JWT by another key under the holder's kid, by another holder, wrong typ, stale KB-JWT, stripped KB-JWT) and bit flips anywhere in the ~-separated string, with KB options (nonce, aud, earliest/latest iat bounds or clock default, scope) drawn per call and the verifier clock stepped around iat. Oracle: validate_credential Ok => issuer signature valid under kid/scope/nonce rules, every supplied disclosure bound (transitively) to a digest in the signed claims and distinct, dates hold, and the returned credential equals the issuer's credential restricted to the disclosed claims; validate_key_binding_jwt Ok => typ, holder-document key, sd_hash over the string as received, nonce, aud and iat window all hold; every failure is an Err of the identifying variant, never Ok and never a panic.",
       note="Soundness and error identification judged, completeness observed only. The dependency's typ constant (KeyBindingJwtClaims::KB_JWT_HEADER_TYP, which carries a leading space in sd-jwt-payload 0.2.1) is used as 'kb+jwt'. For bit-flipped presentations any error variant is admitted."),
+ dict(id="C01", engine="world", level="exploration", design="§4.4, §5 C01",
+      technique="deterministic simulation: notices signed by Ed25519 (shipped storage) and ES256/ES256K (KMS stub) signers in all three serialisations cross a network with seeded bit flips, truncation and Byzantine rewrites; every verification the library requests goes through a recording verifier around the real verifiers and is compared with the bytes as received and with the log of honest signing events",
+      text="Seeded search over serialisation x attached/detached x b64 x 1-3 co-signers (arrival order chosen by the tape) x payload kinds, delivered intact or with one bit flipped in the protected, payload or signature segment, truncated, spliced, alg moved to the unprotected header, embedded plus detached payload, wrong detached payload or stripped signature. Invariants per verification request: signing input == ASCII(protected as received) '.' payload as received, alg == alg of the received protected header; per token reported verified: a verifier call succeeded, an honest signing event exists for exactly those bytes, claims == signed payload (decoded unless b64=false); every delivered token that differs from the signed one in protected header, payload or signature is rejected.",
+      note="Only inputs an honest producer, a network fault or a listed adversary move generates are explored (not arbitrary malformed JSON). ES256/ES256K signing is a harness stub (p256/k256 crates); the three verifiers are real code. A decoder panic is counted as an observation (the statement is silent on it)."),
+ dict(id="C08", engine="world", level="exploration", design="§4.4, §5 C08",
+      technique="deterministic simulation with fault injection at the storage seam: tokens produced by the three encoders and by create_jws (tape-drawn JwsSignatureOptions, injected get_key_id / sign failures and retry) are delivered unmodified and decoded/verified by the library's own decoder against the producing document and key; separation checks under other method / nonce / scope",
+      text="Seeded search over encoders x header combinations (protected/unprotected, b64, crit, typ, nonce, custom parameters) x attached/detached x payload kinds (binary, UTF-8, dots, quotes, backslashes, control characters) x 1-3 recipients in schedule-dependent order, and over create_jws option combinations (kid override, attach_jwk, b64, typ, cty, url, nonce, custom parameters, detached). I8.1 every produced token decodes to the same payload, headers and signing input and verifies; I8.2 an injected storage failure during signing yields an error and no token and the retry succeeds; I8.3 a create_jws token verifies against its own document but not under another method's key, another nonce or an excluding scope.",
+      note="Header combinations are sampled, not enumerated; empty payloads are excluded as in the property. For un-encoded attached compact payloads only the character set the encoder accepts is generated."),
 ]
 
 def main():
